@@ -539,6 +539,7 @@ func judged(a Assignment) *ev.Verdict {
 func registerAll() {
 	ev.Register("assignments", judged)
 	ev.Register("race", judged)
+	ev.Register("containers", judgedContainers)
 }
 
 func TestPropAssignments(t *testing.T) {
